@@ -60,6 +60,8 @@ pub enum Op {
     Observe,
     /// format!("{session:?}") must not contain any id the session has held
     DebugFmt,
+    /// the handler takes this long (wall clock moves in the middle of the request)
+    Wait(u32),
 }
 
 #[derive(Serialize, Deserialize, Clone, Debug, PartialEq)]
@@ -127,6 +129,10 @@ pub struct Script {
     pub arm: String,
     pub cfg: Cfg,
     pub reqs: Vec<Req>,
+    /// from this request on the cookie processor is reconfigured (a deployment): new primary
+    /// algorithm and key, the previous algorithm and key kept as a fallback for incoming cookies
+    #[serde(default)]
+    pub crypto_switch: Option<(usize, Crypto)>,
 }
 
 const SKEYS: [&str; 3] = ["a", "b", "c"];
@@ -327,20 +333,28 @@ fn build_config(c: &Cfg) -> SessionConfig {
     cfg
 }
 
-fn build_processor(c: &Cfg) -> Processor {
-    use pavex::cookie::config::{CryptoAlgorithm, CryptoRule, FallbackConfig};
+fn build_processor(c: &Cfg, crypto: &Crypto, previous: Option<&Crypto>) -> Processor {
     use pavex::cookie::Key;
+    use pavex::cookie::config::{CryptoAlgorithm, CryptoRule, FallbackConfig};
     let mut pc = ProcessorConfig::default();
     pc.percent_encode = c.percent_encode;
-    let alg = match c.crypto {
+    let to_alg = |c: &Crypto| match c {
         Crypto::None => None,
         Crypto::Sign => Some(CryptoAlgorithm::Signing),
         Crypto::Encrypt => Some(CryptoAlgorithm::Encryption),
     };
-    if let Some(alg) = alg {
+    if let Some(alg) = to_alg(crypto) {
         let name = if c.rule_names_session_cookie { c.cookie_name.clone() } else { format!("{}-other", c.cookie_name) };
-        let key = Key::from(vec![7u8; 64]);
-        let fallbacks = if c.with_fallback_key { vec![FallbackConfig { key: Key::from(vec![9u8; 64]), algorithm: CryptoAlgorithm::Encryption }] } else { vec![] };
+        let mut fallbacks = if c.with_fallback_key { vec![FallbackConfig { key: Key::from(vec![9u8; 64]), algorithm: CryptoAlgorithm::Encryption }] } else { vec![] };
+        let key = match previous {
+            None => Key::from(vec![7u8; 64]),
+            Some(prev) => {
+                if let Some(palg) = to_alg(prev) {
+                    fallbacks.push(FallbackConfig { key: Key::from(vec![7u8; 64]), algorithm: palg });
+                }
+                Key::from(vec![8u8; 64])
+            }
+        };
         pc.crypto_rules.push(CryptoRule { cookie_names: vec![name], algorithm: alg, key, fallbacks });
     }
     pc.into()
@@ -375,6 +389,8 @@ struct World<'a> {
     arm: &'a str,
     config: SessionConfig,
     processor: Processor,
+    crypto_now: Crypto,
+    switched: bool,
     store: SessionStore,
     peek: InMemorySessionStore,
     plan: Arc<Mutex<FaultPlan>>,
@@ -439,6 +455,7 @@ impl World<'_> {
                 Op::Sync => "sync",
                 Op::Observe => "observe",
                 Op::DebugFmt => "debug",
+                Op::Wait(_) => "wait",
             })
             .collect::<Vec<_>>()
             .join(",")
@@ -489,7 +506,9 @@ pub fn execute(script: &Script, _tape: &mut Tape, keep_log: bool) -> RunOut {
         cfg,
         arm: &script.arm,
         config: build_config(cfg),
-        processor: build_processor(cfg),
+        processor: build_processor(cfg, &cfg.crypto, None),
+        crypto_now: cfg.crypto.clone(),
+        switched: false,
         store,
         peek: inner,
         plan,
@@ -502,6 +521,14 @@ pub fn execute(script: &Script, _tape: &mut Tape, keep_log: bool) -> RunOut {
         seams::advance_clock_ns(req.advance_ms * 1_000_000);
         if req.advance_ms < 0 {
             w.out.count("fault_clock_jump_back", 1);
+        }
+        if let Some((at, c)) = &script.crypto_switch {
+            if *at == ri && !w.switched {
+                w.processor = build_processor(cfg, c, Some(&cfg.crypto));
+                w.crypto_now = c.clone();
+                w.switched = true;
+                w.out.count("processor_reconfigured", 1);
+            }
         }
         let rshape = req_shape(cfg, req);
         run_request(&mut w, ri, req, &rshape);
@@ -575,12 +602,19 @@ fn run_request(w: &mut World<'_>, ri: usize, req: &Req, shape: &str) {
         Err(_) => RequestCookies::new(),
     };
     let incoming = IncomingSession::extract(&cookies, &w.config.cookie);
-    if presented.is_some() && incoming.is_none() {
+    if presented.is_some() && incoming.is_none() && w.switched {
+        // the new processor configuration cannot read the old cookie: a new session starts
+        rm.presented = None;
+        rm.srv = Srv::Loaded { exists: Tri::No, map: Map::new(), changed: false };
+        rm.cli = Map::new();
+        rm.ids_held.clear();
+    } else if presented.is_some() && incoming.is_none() {
         w.out.violations.push(viol("C11", "cookie-roundtrip", format!("cookie not accepted back {shape}"), format!("req{ri}: the session cookie emitted earlier was not recognised when presented")));
         return;
     }
     // Move the pieces the async block needs out of `w` by reference.
     let config = w.config.clone();
+    let t_req_start = w.now();
     let mut vio: Vec<Violation> = Vec::new();
     let mut log: Vec<String> = Vec::new();
     let mut counters: Vec<&'static str> = Vec::new();
@@ -694,7 +728,7 @@ fn run_request(w: &mut World<'_>, ri: usize, req: &Req, shape: &str) {
     match (&finalize_result, faulted) {
         (Some(Ok(())), false) => {
             w.out.count("finalize_ok", 1);
-            after_success(w, ri, req, rm, session_cookie, shape);
+            after_success(w, ri, req, rm, session_cookie, shape, t_req_start);
         }
         (Some(Ok(())), true) => {
             // a load failed earlier in the request and the handler carried on: treat like a failure
@@ -1034,6 +1068,12 @@ async fn apply_op(
             log.push(format!("sync -> {}", if r.is_ok() { "ok" } else { "err" }));
             counters.push("explicit_sync");
             if r.is_ok() {
+                if let Srv::Loaded { changed, exists, map } = &mut rm.srv {
+                    if *changed || !map.is_empty() {
+                        *exists = Tri::Yes;
+                    }
+                    *changed = false;
+                }
                 if rm.srv == Srv::Deleted && !rm.inv {
                     // the record is gone; the session goes on with an empty server state
                     rm.srv = Srv::Loaded { exists: Tri::No, map: Map::new(), changed: false };
@@ -1056,6 +1096,11 @@ async fn apply_op(
         Op::DebugFmt => {
             check_debug(s, rm, ri, shape, vio);
             counters.push("debug_checked");
+        }
+        Op::Wait(ms) => {
+            seams::advance_clock_ns(*ms as i64 * 1_000_000);
+            log.push(format!("wait {ms}ms"));
+            counters.push("clock_moved_inside_request");
         }
     }
 }
@@ -1081,18 +1126,18 @@ fn decode_cookie(w: &World<'_>, c: &SetCookie) -> Option<Wire> {
 fn check_c12_cookie(w: &mut World<'_>, ri: usize, rm: &ReqModel, c: Option<&SetCookie>, shape: &str, _faulted: bool) {
     let Some(c) = c else { return };
     let cfg = w.cfg;
-    let protected_enc = cfg.crypto == Crypto::Encrypt && cfg.rule_names_session_cookie;
-    let protected_sig = cfg.crypto == Crypto::Sign && cfg.rule_names_session_cookie;
+    let protected_enc = w.crypto_now == Crypto::Encrypt && cfg.rule_names_session_cookie;
+    let protected_sig = w.crypto_now == Crypto::Sign && cfg.rule_names_session_cookie;
     if c.removal {
         w.out.count("removal_cookie_emitted", 1);
     } else {
         w.out.count("session_cookie_emitted", 1);
         if !(protected_enc || protected_sig) {
-            w.out.violations.push(viol("C12", "cookie-protected", format!("unprotected cookie crypto={:?} names_session={}", cfg.crypto, cfg.rule_names_session_cookie), format!("req{ri}: a session cookie was attached although the processor neither signs nor encrypts `{}`", c.name)));
+            w.out.violations.push(viol("C12", "cookie-protected", format!("unprotected cookie crypto={:?} names_session={}", w.crypto_now, cfg.rule_names_session_cookie), format!("req{ri}: a session cookie was attached although the processor neither signs nor encrypts `{}`", c.name)));
         }
         let client_nonempty = !rm.inv && !rm.cli.is_empty();
         if client_nonempty && !protected_enc {
-            w.out.violations.push(viol("C12", "client-state-encrypted", format!("plaintext client state crypto={:?}", cfg.crypto), format!("req{ri}: client-side state {:?} is non-empty but the cookie is not encrypted", rm.cli)));
+            w.out.violations.push(viol("C12", "client-state-encrypted", format!("plaintext client state crypto={:?}", w.crypto_now), format!("req{ri}: client-side state {:?} is non-empty but the cookie is not encrypted", rm.cli)));
         }
         // on the wire: when encryption is required the plaintext must not be visible
         if protected_enc {
@@ -1153,17 +1198,17 @@ fn check_c12_cookie(w: &mut World<'_>, ri: usize, rm: &ReqModel, c: Option<&SetC
 fn check_crypto_refusal(w: &mut World<'_>, ri: usize, rm: &ReqModel, err: &str, shape: &str) {
     // the refusal must be justified by the configuration
     let cfg = w.cfg;
-    let protected_enc = cfg.crypto == Crypto::Encrypt && cfg.rule_names_session_cookie;
-    let protected_sig = cfg.crypto == Crypto::Sign && cfg.rule_names_session_cookie;
+    let protected_enc = w.crypto_now == Crypto::Encrypt && cfg.rule_names_session_cookie;
+    let protected_sig = w.crypto_now == Crypto::Sign && cfg.rule_names_session_cookie;
     let client_nonempty = !rm.inv && !rm.cli.is_empty();
     let justified = (!protected_enc && !protected_sig) || (client_nonempty && !protected_enc) || rm.srv == Srv::Unknown;
     if !justified {
-        w.out.violations.push(viol("C12", "refusal-justified", format!("refused although protected crypto={:?}", cfg.crypto), format!("req{ri}: finalize_session refused with {err} although the cookie would have been protected {shape}")));
+        w.out.violations.push(viol("C12", "refusal-justified", format!("refused although protected crypto={:?}", w.crypto_now), format!("req{ri}: finalize_session refused with {err} although the cookie would have been protected {shape}")));
     }
 }
 
 #[allow(clippy::too_many_arguments)]
-fn after_success(w: &mut World<'_>, ri: usize, req: &Req, rm: ReqModel, cookie: Option<SetCookie>, shape: &str) {
+fn after_success(w: &mut World<'_>, ri: usize, req: &Req, rm: ReqModel, cookie: Option<SetCookie>, shape: &str, t0: i64) {
     check_c12_cookie(w, ri, &rm, cookie.as_ref(), shape, false);
     let unknown = rm.srv == Srv::Unknown;
     let _ = req;
@@ -1173,6 +1218,14 @@ fn after_success(w: &mut World<'_>, ri: usize, req: &Req, rm: ReqModel, cookie: 
         let got_removal = cookie.as_ref().map(|c| c.removal).unwrap_or(false);
         if rm.presented.is_some() && !got_removal {
             w.out.violations.push(viol("C11", "invalidate", format!("no removal cookie {shape}"), format!("req{ri}: the session was invalidated but the response carries {} instead of a removal cookie", if cookie.is_some() { "a regular session cookie" } else { "no cookie" })));
+        }
+        if let (true, Some(c)) = (got_removal, cookie.as_ref()) {
+            // a removal cookie only removes the cookie it names: same Domain and Path as the
+            // session cookie it is meant to delete
+            let get = |p: &str| c.attrs.iter().find_map(|x| x.strip_prefix(p).map(|s| s.to_string()));
+            if get("Domain=") != w.cfg.domain || get("Path=") != w.cfg.path {
+                w.out.violations.push(viol("C11", "invalidate", format!("removal cookie has another scope {shape}"), format!("req{ri}: removal cookie carries Domain={:?} Path={:?}, the session cookie was set with Domain={:?} Path={:?}: the client keeps the session cookie", get("Domain="), get("Path="), w.cfg.domain, w.cfg.path)));
+            }
         }
         if rm.presented.is_none() && cookie.is_some() {
             w.out.violations.push(viol("C11", "invalidate", format!("cookie for a fresh invalidated session {shape}"), format!("req{ri}: a brand-new session was invalidated, yet a cookie was sent")));
@@ -1247,14 +1300,21 @@ fn after_success(w: &mut World<'_>, ri: usize, req: &Req, rm: ReqModel, cookie: 
     // ---- server-side state: what the next request will be served under the id the client now holds
     if !unknown {
         let actual = w.peek_live(&new_id);
+        let written_now = matches!(&rm.srv, Srv::Loaded { changed: true, .. });
         match (&srv_map, srv_exists) {
             (Some(m), _) => {
-                if actual.as_ref() != Some(m) {
+                // A state written by this finalisation must be served right away. A state that
+                // was merely loaded (or synced earlier in the request) may have expired since —
+                // that is the TTL doing its job — but if the record is still there it must hold
+                // exactly what the request ended with.
+                let phys = w.peek_phys(&new_id);
+                let ok = if written_now { actual.as_ref() == Some(m) } else { phys.as_ref().map(|r| &r.map == m && (actual.is_some() || r.deadline <= w.now())).unwrap_or(false) || (phys.is_none() && rm.presented.as_ref().and_then(|o| w.model.durable.get(o)).map(|r| r.deadline <= w.now()).unwrap_or(false)) };
+                if !ok {
                     w.out.violations.push(viol(
                         "C11",
                         "carry-over",
                         format!("durable state differs {shape}"),
-                        format!("req{ri}: the request ended with server state {m:?} but the store serves {actual:?} under id {}", short(&new_id)),
+                        format!("req{ri}: the request ended with server state {m:?} but the store serves {actual:?} (physically {:?}) under id {}", phys.map(|r| r.map), short(&new_id)),
                     ));
                 }
                 w.out.count("durable_state_cross_checked", 1);
@@ -1289,6 +1349,23 @@ fn after_success(w: &mut World<'_>, ri: usize, req: &Req, rm: ReqModel, cookie: 
             if let Some(m) = w.peek_live(old) {
                 w.out.violations.push(viol("C11", "cycle-id", format!("old id still has state {shape}"), format!("req{ri}: after cycle_id() the store still serves {m:?} under the old id {}", short(old))));
             }
+        }
+    }
+    // ---- the record the client's cookie now points at must live at least as long as promised:
+    // either it kept the deadline it had (untouched / renamed) or it got a fresh TTL
+    if !unknown {
+        let before = rm.presented.as_ref().and_then(|o| w.model.durable.get(o)).map(|r| r.deadline);
+        if let Some(after) = w.peek_phys(&new_id) {
+            let fresh = t0 + w.cfg.ttl_ms as i64 * 1_000_000;
+            if after.deadline < fresh && Some(after.deadline) != before {
+                w.out.violations.push(viol(
+                    "C11",
+                    "carry-over",
+                    format!("record outlives less than the TTL {shape}"),
+                    format!("req{ri}: the record behind the new cookie expires {} ms after the request started (configured TTL {} ms, deadline before the request {:?})", (after.deadline - t0) / 1_000_000, w.cfg.ttl_ms, before.map(|b| (b - t0) / 1_000_000)),
+                ));
+            }
+            w.out.count("deadline_checked", 1);
         }
     }
     w.model.all_ids.insert(new_id.clone());
@@ -1333,9 +1410,9 @@ fn adopt_after_failure(w: &mut World<'_>, ri: usize, rm: &ReqModel, cookie: Opti
 
 fn gen_op(rng: &mut Rng, c12: bool) -> Op {
     let w: &[u32] = if c12 {
-        &[3, 4, 2, 1, 1, 1, 2, 6, 2, 2, 1, 1, 2, 2, 1, 2, 4]
+        &[3, 4, 2, 1, 1, 1, 2, 6, 2, 2, 1, 1, 2, 2, 1, 2, 4, 0]
     } else {
-        &[5, 8, 5, 2, 2, 1, 3, 5, 3, 1, 1, 2, 3, 2, 2, 4, 1]
+        &[5, 8, 5, 2, 2, 1, 3, 5, 3, 1, 1, 2, 3, 2, 2, 4, 1, 0]
     };
     match rng.weighted(w) {
         0 => Op::SGet(rng.below(3) as u8),
@@ -1354,7 +1431,8 @@ fn gen_op(rng: &mut Rng, c12: bool) -> Op {
         13 => Op::Invalidate,
         14 => Op::Sync,
         15 => Op::Observe,
-        _ => Op::DebugFmt,
+        16 => Op::DebugFmt,
+        _ => Op::Wait(0),
     }
 }
 
@@ -1430,8 +1508,8 @@ impl Sim for SesSim {
             threshold_milli: *rng.pick(&[None, Some(0), Some(500), Some(800), Some(1000)]),
             ttl_ms,
             cookie_name: if c12 { rng.pick(&["id", "sid", "__Host-s", "a.b"]).to_string() } else { "id".into() },
-            domain: if c12 && rng.chance(1, 2) { Some(rng.pick(&["example.com", "a.example.org"]).to_string()) } else { None },
-            path: if c12 { rng.pick(&[None, Some("/"), Some("/app")]).map(|s| s.to_string()) } else { Some("/".into()) },
+            domain: if rng.chance(1, if c12 { 2 } else { 4 }) { Some(rng.pick(&["example.com", "a.example.org"]).to_string()) } else { None },
+            path: if c12 || rng.chance(1, 4) { rng.pick(&[None, Some("/"), Some("/app")]).map(|s| s.to_string()) } else { Some("/".into()) },
             secure: if c12 { rng.chance(1, 2) } else { true },
             http_only: if c12 { rng.chance(1, 2) } else { true },
             same_site: if c12 { rng.below(4) as u8 } else { 2 },
@@ -1472,12 +1550,20 @@ impl Sim for SesSim {
                 }
             };
             let nops = rng.usize(0, 10);
-            let ops = (0..nops).map(|_| gen_op(rng, c12)).collect();
+            let mut ops: Vec<Op> = (0..nops).map(|_| gen_op(rng, c12)).collect();
+            if arm == "expiry" && !ops.is_empty() && rng.chance(1, 3) {
+                // the handler takes a while: the clock crosses (or approaches) a deadline mid-request
+                let t = ttl_ms as u32;
+                let w = *rng.pick(&[1, t / 2, t.saturating_sub(1), t, t + 1]);
+                let at = rng.usize(0, ops.len());
+                ops.insert(at, Op::Wait(w));
+            }
             let fault = if arm == "fault" && rng.chance(1, 3) { Some(if rng.chance(1, 2) { StoreFault::Error(rng.below(4) as u8) } else { StoreFault::Crash(rng.below(4) as u8) }) } else { None };
             let abandon = arm == "fault" && rng.chance(1, 10);
             reqs.push(Req { advance_ms, present, ops, fault, abandon });
         }
-        Script { arm: arm.to_string(), cfg, reqs }
+        let crypto_switch = if c12 && n >= 2 && rng.chance(1, 3) { Some((rng.usize(1, n - 1), rng.pick(&[Crypto::Sign, Crypto::Encrypt, Crypto::Sign, Crypto::None]).clone())) } else { None };
+        Script { arm: arm.to_string(), cfg, reqs, crypto_switch }
     }
 
     fn run(script: &Script, tape: &mut Tape, keep_log: bool) -> RunOut {
@@ -1534,6 +1620,11 @@ impl Sim for SesSim {
                     }
                 }
             }
+        }
+        if s.crypto_switch.is_some() {
+            let mut t = s.clone();
+            t.crypto_switch = None;
+            c.push(t);
         }
         if s.arm != "strict" {
             let mut t = s.clone();
